@@ -60,11 +60,10 @@ def main():
     except BuildError as e:
         c.corr_broken.append({'kind': 'harness-build-failed', 'what': e.what, 'output': e.output[-1500:]})
         c.finish()
-    targeted_make('C05')
     c.prove()
     chk = coqchk(c, 'C05') if not quick and not c.proof_broken else 'not run (quick tier)'
     try:
-        build_driver()
+        build_driver(DRIVER_COMPONENTS)
     except BuildError as e:
         c.corr_broken.append({'kind': 'model-extraction-failed', 'what': e.what, 'output': e.output[-1500:]})
         c.finish()
@@ -73,7 +72,7 @@ def main():
     flav = {m: ('fixed' if specs.get(m, {}).get('InitZero') else 'custom') for m in models}
 
     # ---------------- (i) closure capture analysis of the generated sources
-    reps = json.loads(sh([CELLRUN, '-capture', os.path.join(REPO, 'models')], env=GOENV))
+    reps = json.loads(sh([CELLRUN, '-capture', os.path.join(REPO_DIR, 'models')], env=GOENV))
     n_closures = 0
     for r in reps:
         name = r['model']
@@ -82,6 +81,8 @@ def main():
         probs = []
         if r['go_funcs'] != 1:
             probs.append('%d goroutine literals (expected 1)' % r['go_funcs'])
+        if r.get('structure'):
+            probs.append('Run does not start exactly one goroutine per cell index: %s' % r['structure'])
         if r.get('written_captured'):
             probs.append('variables shared between the goroutines are WRITTEN inside the goroutine: %s' % r['written_captured'])
         if name != 'runGeneration':
@@ -104,12 +105,15 @@ def main():
         if m in models:
             for shp in (SHAPES[3::4] if quick else SHAPES):
                 lines.append(run_line(m, shp[0], shp[1], shp[2], 7, PADS[shp[0] % len(PADS)], 0, rng.randrange(1 << 30), 'go', 1, 1))
+    # many cells: every cell index must get its goroutine (and only its own rows)
+    lines += gen_many_cells(rng, models, MANY_N if quick else MANY_N + [511], record_upto=129 if quick else 257, per_n=2 if quick else None)
     # T = 0 crashes two kernels (known finding of C04, not a concurrency matter): use T >= 1 here
     lines = [l for l in lines if l.split()[5] != '0']
     results = run_cases(lines)
     fp_lines = [footprint_line(r) for (_, r, _) in results if r is not None and r.get('cells') is not None]
     fp_out = iter(run_model(fp_lines)) if fp_lines else iter([])
     n_acc = 0
+    max_cpg = 0
     digests = {}
     for i, (l, r, raw) in enumerate(results):
         if r is None:
@@ -125,6 +129,11 @@ def main():
         if r.get('cells') is None:
             continue
         n_acc += r.get('n_accesses', 0)
+        max_cpg = max(max_cpg, r.get('max_cells_per_goroutine', 0))
+        if r.get('max_cells_per_goroutine', 0) > 1 and not any(v[0] and 'structure_' in v[0] for v in c.violations):
+            c.violation('structure_%d.json' % i, {'kind': 'one goroutine handles several cells: not the goroutine-per-cell structure the footprint theorems model',
+                                                 'case_line': l, 'cells_per_goroutine': [len(g['cells']) for g in r.get('groups') or []][:20]},
+                        no_input=True)
         fd, cells = parse_footprint(next(fp_out))
         if cells is None or len(cells) != L['N']:
             c.corr_broken.append({'kind': 'model-footprint-unavailable', 'case_line': l})
@@ -140,7 +149,9 @@ def main():
     # ---------------- (iii) TESTING: race detector, GOMAXPROCS 1 / 2 / 16, bit-for-bit
     race_stats = {'cases': 0, 'gomaxprocs': [], 'data_races': 0}
     try:
-        rb = CELLRUN + '-race'
+        rb = CELLRUN_RACE
+        if not PRIVATE:
+            pass
         tree_changed = (repo_state() != tree0) or not stable
         rl = [l.rsplit(' ', 1)[0] + ' 0' for l in lines]          # no recorder: its mutex would hide races
         if quick:
@@ -183,7 +194,7 @@ def main():
                      'sim.Catalog run on recording arrays (per-goroutine read/write sets, measured element addresses) compared with the '
                      'extracted Coq footprint and checked for pairwise disjointness; non-trivial = more than one cell; (iii) TESTING: the same '
                      'case stream under -race with GOMAXPROCS 1/2/16, results bit-identical to the plain build' % len(gen_files))
-    c.finish(extra_cov={'models': len(models), 'closures_analysed': n_closures, 'recorded_accesses': n_acc, 'race_testing': race_stats,
+    c.finish(extra_cov={'models': len(models), 'closures_analysed': n_closures, 'recorded_accesses': n_acc, 'max_cells_handled_by_one_goroutine': max_cpg, 'race_testing': race_stats,
                         'exhaustive': False, 'coqchk': chk},
              assumptions=['PARTIAL w.r.t. the Go memory model: the doneChan / simulationDone joins (channel happens-before) are assumed, not modelled',
                           'the race detector samples schedules (testing); all schedules are covered only by the theorem on the footprint model',
